@@ -264,6 +264,9 @@ func hasTiedKeys(v reflect.Value) bool {
 // a copy of v in which every map has been rebuilt through a different insertion/deletion history
 func rebuildMaps(r *rand.Rand, v reflect.Value) reflect.Value {
 	t := v.Type()
+	if t.Kind() == reflect.Struct {
+		v = addressable(v)
+	}
 	out := reflect.New(t).Elem()
 	switch t.Kind() {
 	case reflect.Map:
